@@ -37,7 +37,7 @@ def where_in_repo(tb):
     return best
 
 
-def process_case(case, lit, want_text, capture_opt=False):
+def process_case(case, lit, want_text, capture_opt=False, disable_opt=False):
     out = {"id": case["id"], "code": case["code"], "status": "ok", "kernels": []}
     try:
         objs, options, ns = ffx.build_case(case["code"])
@@ -48,7 +48,7 @@ def process_case(case, lit, want_text, capture_opt=False):
         out["error"] = f"{type(e).__name__}: {e}"[:300]
         return out
     try:
-        cap = ffx.compile_case(objs, options, capture_opt=capture_opt)
+        cap = ffx.compile_case(objs, options, capture_opt=capture_opt, disable_opt=disable_opt)
     except CaseTimeout:
         raise
     except (KeyboardInterrupt, SystemExit):
@@ -90,7 +90,8 @@ def main():
     for case in job["cases"]:
         signal.alarm(int(job.get("timeout", 120)))
         try:
-            r = process_case(case, job.get("lit", "exact"), job.get("want_text", False))
+            r = process_case(case, job.get("lit", "exact"), job.get("want_text", False),
+                             disable_opt=job.get("disable_opt", False))
         except CaseTimeout:
             r = {"id": case["id"], "code": case["code"], "status": "timeout", "kernels": []}
         except BaseException as e:  # noqa: BLE001
